@@ -345,8 +345,14 @@ func (fi *FlowInfo) analyse(fn *ssa.Function, report bool) bool {
 					}
 				case *ssa.Slice:
 					// slicing an array pointer (varargs) is fresh storage
+					// only when the array is a local of this function; a slice
+					// of an array held in a field (the VM stack) is shared
 					if _, isPtr := x.X.Type().Underlying().(*types.Pointer); isPtr {
-						set(x, oFresh)
+						if isLocalAlloc(x.X) {
+							set(x, oFresh)
+						} else {
+							set(x, oMut)
+						}
 					} else {
 						set(x, get(x.X))
 					}
